@@ -240,64 +240,9 @@ Loop:
 			continue
 		}
 
-		// the queued messages have been sent to redis in bulk,
-		// and the messages are finally assembled and sent to
-		// the client when and only when all the messages have been processed
-
-		// Whether all inMsgQueue messages have been processed
-		if !c.inMsgQueue.AllDone() {
-			continue
-		}
-
-		var bs = make([][]byte, c.inMsgQueue.count)
-		bs = bs[:0]
-		cur := c.inMsgQueue.head
-
-		var curId uint64
-		var curFd = c.fd
-
-		for cur != nil {
-			curId = cur.Id
-			bs = append(bs, cur.RspBody)
-			logging.Debugfunc(func() string { return fmt.Sprintf("[%dm][%dc] got res: %s", cur.Id, c.Fd(), cur.RspBodyString()) })
-			cur = cur.prev
-		}
-
-		for len(bs) > 0 {
-			var r = len(bs)
-			if r >= iovMax {
-				r = iovMax
-			}
-
-			if _, err = c.writev(bs[0:r]); err != nil {
-				logging.Warnf("[%dm][%dc] write to client failed, error: %s, body: %s", cur.Id, c.fd, err, cur.RspBodyString())
-				break
-			}
-			if !c.opened {
-				logging.Warnf("[%dm][%dc] write failed because of client closed", curId, curFd)
-				break
-			}
-			bs = bs[r:]
-		}
-
-		if _, err = c.writev(bs); err != nil {
-			logging.Warnf("[%dm][%dc] write to client failed, error: %s, body: %s", cur.Id, c.fd, err, cur.RspBodyString())
-			continue
-		}
-
-		if !c.opened {
-			logging.Warnf("[%dm][%dc] write failed because of client closed", curId, curFd)
-			continue
-		}
-
-		// release Msg
-		for {
-			msg := c.dequeueInMsg()
-			if msg == nil {
-				break
-			}
-			MsgPool.Put(msg)
-		}
+		// the completed requests at the head of the client's queue are answered now, in order;
+		// requests behind an unfinished one wait for it
+		el.flushDone(c)
 
 		// Check the status of connection every loop since it might be closed
 		// during writing data back to the peer due to some kind of system error.
@@ -308,6 +253,56 @@ Loop:
 
 	_, _ = s.inboundBuffer.Write(s.buffer)
 	return nil
+}
+
+// flushDone writes the replies of the completed requests at the head of c's queue to the client,
+// in request order, and releases them. A completed reply is never held back by younger requests
+// that are still waiting for their backends.
+func (el *eventloop) flushDone(c *conn) {
+	n := 0
+	for cur := c.inMsgQueue.head; cur != nil && cur.Done; cur = cur.prev {
+		n++
+	}
+	if n == 0 {
+		return
+	}
+
+	var bs = make([][]byte, 0, n)
+	var curId uint64
+	var curFd = c.fd
+	cur := c.inMsgQueue.head
+	for i := 0; i < n; i++ {
+		curId = cur.Id
+		bs = append(bs, cur.RspBody)
+		m := cur
+		logging.Debugfunc(func() string { return fmt.Sprintf("[%dm][%dc] got res: %s", m.Id, c.Fd(), m.RspBodyString()) })
+		cur = cur.prev
+	}
+
+	for len(bs) > 0 {
+		var r = len(bs)
+		if r >= iovMax {
+			r = iovMax
+		}
+		if _, err := c.writev(bs[0:r]); err != nil {
+			logging.Warnf("[%dm][%dc] write to client failed, error: %s", curId, curFd, err)
+			return
+		}
+		if !c.opened {
+			logging.Warnf("[%dm][%dc] write failed because of client closed", curId, curFd)
+			return
+		}
+		bs = bs[r:]
+	}
+
+	// release Msg
+	for i := 0; i < n; i++ {
+		msg := c.dequeueInMsg()
+		if msg == nil {
+			break
+		}
+		MsgPool.Put(msg)
+	}
 }
 
 const iovMax = 1024
